@@ -481,6 +481,31 @@ pub fn check(rec: &RunRecord) -> Vec<Violation> {
                     if matches!(body, Some(b) if b.as_slice() == b"@laneNotFound") && lane_failed.is_none() {
                         out.push(Violation::new("C04", "C04.lane_not_found_for_known_lane", "", format!("peer {peer} lane {lane}")));
                     }
+                    // A link is only closed for a reason: the remote asked, the lane failed or the agent is
+                    // stopping. The lanes of the real agent model do not fail, so an unlinked that the remote
+                    // did not ask for, read while the agent is still up at quiescence, has no reason.
+                    let asked = reqs.iter().any(|s| matches!(s.op, Op::Unlink { .. }) && s.start <= f.step);
+                    let agent_up_at_quiescence = match (q, rec.agent_ends.first()) {
+                        (Some(qs), Some(end)) => f.step <= qs && end.as_ref().map(|e| e.step > qs).unwrap_or(true),
+                        _ => false,
+                    };
+                    if linked
+                        && !asked
+                        && clean_end
+                        && agent_up_at_quiescence
+                        && lane_failed.is_none()
+                        && rec.scenario.fake.is_none()
+                        && rec.scenario.fake_persist.is_none()
+                        && info.closed_read.is_none()
+                        && info.closed_write.is_none()
+                        && !info.write_failed
+                    {
+                        out.push(Violation::new("C04", "C04.unlinked_unrequested", "", format!("peer {peer} lane {lane}: unlinked {:?} at step {} although the remote never asked to unlink, the agent is not stopping and no lane failed", body.as_ref().map(|b| body_text(b)), f.step)));
+                        out.push(Violation::new("C03", "C03.session", "link_lost", format!("peer {peer} lane {lane}: the link was closed at step {} without the remote asking for it: what the lane does afterwards no longer reaches the remote", f.step)));
+                        out.push(Violation::new("C01", "C01.link_lost", "", format!("peer {peer} lane {lane}: the link was closed at step {} without the remote asking for it", f.step)));
+                        out.push(Violation::new("C02", "C02.link_lost", "", format!("peer {peer} lane {lane}: the link was closed at step {} without the remote asking for it", f.step)));
+                        out.push(Violation::new("C14", "C14.link_lost", "", format!("peer {peer} lane {lane}: the link was closed at step {} without the remote asking for it", f.step)));
+                    }
                     linked = false;
                     n_unlinked += 1;
                 }
